@@ -48,6 +48,7 @@ L_EMPTY_PLAIN = "C06.empty.plain_cell_skipped"
 L_EMPTY_VALUE = "C06.empty.value_cell_skipped"
 L_EMPTY_REF = "C06.empty.referenced_cell_disappears"
 L_INDEX = "C06.rows.nondefault_index"
+L_NUMERIC = "C06.ref.numeric_column_name"          # new: '{7}' is read as a regex quantifier by replace_ref, the n/a reference stays
 
 
 # ----------------------------------------------------------------------------------------------- the specification
@@ -257,6 +258,10 @@ def check_case(sidecar, columns, rows, index=None, light=False):
             add(lab_w, ot is not None, {"row": k, "text": o}, "delimiter-well-formed text")
             add(lab_u, ot is not None and sorted(ser([x]) for x in ot) == exp["union"],
                 {"row": k, "text": o}, {"items": exp["union"]})
+    if index is None and any(r.isdigit() for c in sidecar if kind_of(c, sidecar) in ("cat", "val")
+                             for t in sidecar_strings(c, sidecar) for r in REF_RE.findall(t)):
+        # sidecars referencing a column whose name is all digits: absent-reference checks get their own narrow label
+        res = [((L_NUMERIC if cl in (L_ABSENT, L_D3, L_TWICE, L_UNION, L_WELL) else cl), ok, o, e) for cl, ok, o, e in res]
     same = list(s1) == list(s2)
     if same and not light:
         sc_b = Sidecar(io.StringIO(sc_text))
@@ -340,6 +345,63 @@ def make_sidecar(host, template, targets, variant=0):
     return sc
 
 
+def paren_templates():
+    """every combination of 0-2 opening parentheses directly before and 0-2 closing parentheses directly after a
+    reference, with/without a neighbour on the left and on the right, at top level and nested one level deeper (as first or
+    as last member of an outer group); where a group gets a sibling, also the variant whose sibling is a second reference"""
+    out = []
+    for o in range(3):
+        for c in range(3):
+            core = "{r}"
+            for level in range(1, max(o, c) + 1):  # innermost group first
+                if level <= o and level <= c:
+                    core = "(" + core + ")"
+                elif level <= o:
+                    core = "(" + core + ",A)"       # opened directly before the reference, closed after a sibling
+                else:
+                    core = "(A," + core + ")"       # closed directly after the reference, opened before a sibling
+            for left in ("", "A,"):
+                for right in ("", ",A"):
+                    flat = left + core + right
+                    for text in (flat, "(A," + flat + ")", "(" + flat + ",A)", "(A,(" + flat + "))"):
+                        out.append(text)
+                        if ",A" in core or "A," in core:
+                            k = core.index("A")
+                            out.append(text.replace(core, core[:k] + "{s}" + core[k + 1:]))
+                        elif right:
+                            out.append(text.replace(flat, left + core + ",{s}"))
+    uniq = []
+    for t in out:
+        if t not in uniq and parse_strict(t) is not None:
+            uniq.append(t)
+    return uniq
+
+
+# column names of the documented reference class [a-z_\-0-9]+ (case-insensitive): hyphens, digits, underscores, mixed case
+NUMERIC_RENAME = {"kat": "7", "wal": "12"}
+RENAMES = [{},
+           {"kat": "response-hand", "wal": "stim-file"},
+           {"kat": "Resp_Hand-2", "wal": "STIM_file_07"},
+           {"kat": "k-9", "wal": "_w-", "cat": "trial-type", "val": "resp-time"},
+           {"kat": "7up", "wal": "-x_", "cat": "Trial_Type", "val": "RT"}]
+
+
+def apply_rename(sidecar, rename):
+    if not rename:
+        return sidecar
+    out = {}
+    for name, entry in sidecar.items():
+        e = copy.deepcopy(entry)
+        h = e.get("HED")
+        fix = lambda t: REF_RE.sub(lambda m: "{%s}" % rename.get(m.group(1), m.group(1)), t)
+        if isinstance(h, dict):
+            e["HED"] = {k: fix(v) for k, v in h.items()}
+        elif isinstance(h, str):
+            e["HED"] = fix(h)
+        out[rename.get(name, name)] = e
+    return out
+
+
 CELLS = {"cat": ["a", "b", NA, "zz"], "kat": ["p", "q", NA, "zz"], "val": ["v1", NA], "wal": ["7", NA],
          "HED": ["Gray", "(White, Small)", NA], "ign": ["x", "y"], "onset": ["1.5"]}
 ORDERS = [["onset", "cat", "kat", "val", "wal", "ign", "HED"],
@@ -368,17 +430,19 @@ def _as_rows(dict_rows, order):
 def _job(job):
     import random
     kind = job["kind"]
-    sc = job["sidecar"]
+    rename = NUMERIC_RENAME if job.get("rename") == "numeric" else RENAMES[job.get("rename", 0)]
+    sc = apply_rename(job["sidecar"], rename)
     out = {"n": 0, "fails": [], "checks": {}, "keys": [], "sample": None}
     per = {}
 
     def run_table(columns, rows, index=None, light=False, key=None):
+        columns = [rename.get(c, c) for c in columns]
         res = check_case(sc, columns, rows, index=index, light=light)
         out["n"] += 1
         out["keys"].append(key)
         inp = {"sidecar": sc, "columns": columns, "rows": rows, "index": index}
         if out["sample"] is None:
-            out["sample"] = {"sidecar_entry": job["text"], "columns": columns, "rows": rows[:3]}
+            out["sample"] = {"sidecar_entry": job["text"], "renamed": rename, "columns": columns, "rows": rows[:3]}
         for clause, ok, obs, exp in res:
             out["checks"][clause] = out["checks"].get(clause, 0) + 1
             if not ok:
@@ -482,11 +546,12 @@ def sidecar_jobs(kind, max_tokens, full_pairs, seed, max3=None, max2=None, hosts
                 sc = make_sidecar(host, tpl, targets, variant=jid)
                 text = sc[host]["HED"]["a"] if host == "cat" else sc[host]["HED"]
                 jobs.append({"kind": kind, "id": jid, "host": host, "targets": list(targets), "sidecar": sc,
-                             "text": text, "seed": seed * 100003 + jid, "max3": max3, "max2": max2})
+                             "text": text, "seed": seed * 100003 + jid, "max3": max3, "max2": max2, "rename": jid % len(RENAMES)})
     return jobs
 
 
-HAND = ["({r}),A", "(A,{r})", "({r},A)", "A,({r}),A", "(A,({r}))", "({r},({s}))", "({r}),({s})", "(({r}))"]
+HAND = ["(({r}),A)", "(A,(({r}),{s}))", "({r}),A", "(A,{r})", "({r},A)", "A,({r}),A", "(A,({r}))", "({r},({s}))", "({r}),({s})",
+        "(({r}))"]
 
 
 def run(w: Workload):
@@ -509,7 +574,7 @@ def run(w: Workload):
             sc = make_sidecar(host, tpl, targets, variant=jid)
             extra.append({"kind": "tables", "id": jid, "host": host, "targets": list(targets), "sidecar": sc,
                           "text": sc[host]["HED"]["a"] if host == "cat" else sc[host]["HED"],
-                          "seed": w.seed * 100003 + jid, "max3": max3, "max2": max2})
+                          "seed": w.seed * 100003 + jid, "max3": max3, "max2": max2, "rename": (jid + 1) % len(RENAMES)})
     if quick:
         extra = extra[::2]
     tjobs += extra
@@ -529,7 +594,7 @@ def run(w: Workload):
         m["exhaustive3"] &= bool(r.get("exhaustive3"))
     n = _absorb(w, results, counters)
     ex3 = all(m["exhaustive3"] and m["exhaustive2"] for m in merged.values())
-    w.part("tables", cases=n, bound="templates <= 3 tokens + 8 hand-picked nested shapes; all 1-row tables; 2-row tables: " +
+    w.part("tables", cases=n, bound="templates <= 3 tokens + 10 hand-picked nested shapes; all 1-row tables; 2-row tables: " +
            ("all" if not quick else "all when <= 100 per sidecar, else a seeded sample of 100") + "; 3-row tables: " +
            ("all for sidecars with <= 16 row types (<= 4096 tables), else a seeded sample of 1500" if not quick else "seeded sample of 25 per sidecar") +
            "; 3 file column orders rotated", exhaustive=ex3, sidecars=len(tjobs),
@@ -542,10 +607,44 @@ def run(w: Workload):
            f"template) x reference targets (kat, wal, HED; pairs {'rotated' if quick else 'all ordered'}); per sidecar one "
            "table listing every combination of host/referenced cells", exhaustive=True, sidecars=len(jobs))
 
+    # part parens: 0-2 '(' directly before x 0-2 ')' directly after a reference, assembled rows
+    pjobs = []
+    pairs2 = [("kat", "wal"), ("HED", "kat"), ("wal", "HED"), ("kat", "HED")]
+    singles = [("kat",), ("HED",), ("wal",)]
+    for k, tpl in enumerate(paren_templates()):
+        for host in ("cat", "val"):
+            jid = 30000 + len(pjobs)
+            targets = pairs2[k % 4] if "{s}" in tpl else singles[k % 3] if host == "val" else ("kat",)
+            sc = make_sidecar(host, tpl, targets, variant=jid)
+            pjobs.append({"kind": "rows", "id": jid, "host": host, "targets": list(targets), "sidecar": sc,
+                          "text": sc[host]["HED"]["a"] if host == "cat" else sc[host]["HED"],
+                          "seed": w.seed * 100003 + jid, "rename": jid % len(RENAMES)})
+    n = _absorb(w, _par(pjobs), counters)
+    w.part("parens", cases=n, bound="every combination of 0-2 '(' directly before and 0-2 ')' directly after a reference x "
+           "neighbour left/right yes/no x (top level, first / last / nested member of an outer group) x sibling tag or second "
+           "reference; host categorical entry and value template; per sidecar one table listing every combination of "
+           "host/referenced cells (n/a and unknown key included); column names rotate through 5 spellings of [a-z_\\-0-9]+",
+           exhaustive=True, sidecars=len(pjobs), templates=len(paren_templates()))
+
+    # part numeric: referenced columns named '7' and '12'
+    njobs = []
+    for tpl, targets in [("{r},A", ("kat",)), ("({r}),A", ("kat",)), ("A,({r},{s})", ("kat", "wal")), ("(({r}),A)", ("wal",)),
+                         ("A,{r}", ("wal",)), ("({r},{s})", ("wal", "kat"))]:
+        for host in ("cat", "val"):
+            jid = 40000 + len(njobs)
+            sc = make_sidecar(host, tpl, targets, variant=jid)
+            njobs.append({"kind": "rows", "id": jid, "host": host, "targets": list(targets), "sidecar": sc,
+                          "text": sc[host]["HED"]["a"] if host == "cat" else sc[host]["HED"],
+                          "seed": w.seed * 100003 + jid, "rename": "numeric"})
+    n = _absorb(w, _par(njobs), counters)
+    w.part("numeric-names", cases=n, bound="6 templates x 2 hosts with the referenced columns named '7' and '12'; one table of "
+           "all row types each", exhaustive=False)
+
     # part ref: replace_ref directly, tree oracle
     n = _part_replace_ref(w, 6 if quick else 8, counters)
     w.part("ref", cases=n, bound=f"all well-formed templates <= {6 if quick else 8} tokens with 1-2 references, compact and "
-           "spaced spelling, each reference absent ('n/a') or present", exhaustive=True)
+           "spaced spelling, plus the parenthesis-combination templates of part 'parens'; each reference absent ('n/a') or "
+           "present; reference names with hyphens, digits, underscores, mixed case", exhaustive=True)
 
     # part empty / index
     n = _absorb(w, _par(_special_jobs()), counters)
@@ -566,9 +665,29 @@ def run(w: Workload):
 def _part_replace_ref(w, max_tokens, counters):
     from hed.models.df_util import replace_ref
     n = 0
-    for ntok, tpl in templates(max_tokens, refs=(1, 2)):
+    names_variants = [("r", "s"), ("response-hand", "stim-file"), ("Resp_Hand-2", "7up")]
+    for tpl in ("A,{r}", "({r}),A", "(A,{r},{s})"):
+        text = concretize(tpl, "cat", ("7", "12"))
+        names = list(dict.fromkeys(REF_RE.findall(text)))
+        for combo in itertools.product([None, "Red"], repeat=len(names)):
+            env = dict(zip(names, combo))
+            w.case(key=("ref", text, combo), nontrivial=True)
+            n += 1
+            expected = splice(parse_strict(text), {k: (parse_strict(v) if v else None) for k, v in env.items()})
+            try:
+                cur = text
+                for name in names:
+                    cur = replace_ref(cur, "{%s}" % name, env[name] if env[name] else NA)
+                ok = _obs_tree(cur) == expected
+            except Exception as e:
+                cur, ok = f"{type(e).__name__}: {e}", False
+            counters[L_NUMERIC] = counters.get(L_NUMERIC, 0) + 1
+            w.check(ok, L_NUMERIC, input={"text": text, "values": env}, observed=cur, expected=ser(expected))
+    tpls = [t for _n, t in templates(max_tokens, refs=(1, 2))]
+    tpls += [t for t in paren_templates() if t not in tpls]
+    for ti, tpl in enumerate(tpls):
         for spaced in (False, True):
-            text = concretize(tpl, "cat", ("r", "s"), spaced=spaced)
+            text = concretize(tpl, "cat", names_variants[ti % 3], spaced=spaced)
             names = list(dict.fromkeys(REF_RE.findall(text)))
             for combo in itertools.product([None, "Red", "(Green, Big)"], repeat=len(names)):
                 env = dict(zip(names, combo))
@@ -610,7 +729,7 @@ def _special_jobs():
         r3 = dict(base, cat=NA, val=NA, HED="(White, Small)")
         tables.append((order, _as_rows([base, r2, r3], order), [5, 3, 9]))
         tables.append((order, _as_rows([r3, base], order), [1, 0]))
-        jobs.append({"kind": "given", "id": 20000 + k, "sidecar": sc, "tables": tables,
+        jobs.append({"kind": "given", "id": 20000 + k, "sidecar": sc, "tables": tables, "rename": k % len(RENAMES),
                      "text": sc[host]["HED"]["a"] if host == "cat" else sc[host]["HED"]})
     return jobs
 
@@ -618,7 +737,7 @@ def _special_jobs():
 def replay(w: Workload, case: dict):
     inp = case["input"]
     clause = case["clause"]
-    if clause == L_REPLACE or (clause == L_TWICE and "text" in inp):
+    if clause == L_REPLACE or (clause in (L_TWICE, L_NUMERIC) and "text" in inp):
         from hed.models.df_util import replace_ref
         text, env = inp["text"], inp["values"]
         expected = splice(parse_strict(text), {k: (parse_strict(v) if v else None) for k, v in env.items()})
